@@ -1,13 +1,99 @@
 (* C15 — property theorems only.  Each is closed by [exact] of a lemma from
-   Proofs*.v and followed by Print Assumptions. *)
+   Proofs*.v and followed by Print Assumptions.  "initial st": no node yet,
+   every thread (Emitter(), Emitter.Close, Emit, Subscribe, replay goroutines,
+   Subscription.Close, drainer, consumer) at its first program counter; the
+   lists of subscriptions / emitters / Emit calls are arbitrary, as are buffer
+   sizes.  "run step st sched" executes an ARBITRARY schedule (list of thread
+   names; a thread that is not enabled is skipped). *)
 From Coq Require Import List Arith ZArith Bool.
-From Verif Require Import lib.Wire c15.Lts c15.Model c15.Spec c15.Proofs.
+From Verif Require Import lib.Wire c15.Lts c15.Model c15.Spec c15.Proofs c15.Proofs_Chan c15.Proofs_Loc
+  c15.Proofs_List c15.Proofs_Safe c15.Proofs_Init c15.Proofs_Once c15.Proofs_Thm.
 Import ListNotations.
 
-(* what conform_case establishes for a recorded run: the label trace of the
-   implementation is the visible trace of the LTS under some schedule, so every
-   theorem below about all schedules applies to it *)
+(* the checked tie: a label trace accepted by conform_case's search is the
+   visible trace of the LTS under some schedule *)
 Theorem c15_accepted_trace_is_model_trace : forall fuel st tr,
   accepted fuel st tr = true -> exists sched, trace step st sched = tr.
 Proof. exact accepted_sound. Qed.
 Print Assumptions c15_accepted_trace_is_model_trace.
+
+(* initial states built from any configuration are initial *)
+Theorem c15_init_state_initial : forall nt sl ms el,
+  initial (init_state nt (map (fun p => new_sub (fst p) (snd p)) sl) ms (map (fun p => new_emit (fst p) (snd p)) el)).
+Proof. exact init_state_initial. Qed.
+Print Assumptions c15_init_state_initial.
+
+(* exactly once, in node-lock order (hence per emitter in emission order):
+   for a typed subscription s and a node n, the items sent to s through n
+   followed by what the holder of n.lk still owes s are exactly the items
+   promised to s at the linearisation points (ghost expd, written when an Emit
+   takes n.lk while s is in n.sinks, and when Subscribe appends s to a node
+   that retains an event) *)
+Theorem c15_exactly_once_in_order : forall st sched s c n, initial st ->
+  nth_error (subs (run step st sched)) s = Some c -> styps c <> None ->
+  proj n (hist c) ++ pend (run step st sched) s n = proj n (expd c).
+Proof. exact exactly_once_in_order_l. Qed.
+Print Assumptions c15_exactly_once_in_order.
+
+(* whenever n.lk is free: delivered = promised; and until Close starts, what
+   the consumer read followed by what is buffered is exactly the promise *)
+Theorem c15_exactly_once_quiescent : forall st sched s c n nd, initial st ->
+  nth_error (subs (run step st sched)) s = Some c -> styps c <> None ->
+  nth_error (nodes (run step st sched)) n = Some nd -> holder nd = None ->
+  proj n (hist c) = proj n (expd c) /\
+  (drain c = 0 -> proj n (recv c) ++ proj n (buf c) = proj n (expd c)).
+Proof. exact exactly_once_quiescent_l. Qed.
+Print Assumptions c15_exactly_once_quiescent.
+
+(* what is promised at an Emit's linearisation point: one copy per occurrence
+   of the subscription in n.sinks at that instant, nothing to anybody else *)
+Theorem c15_emit_lock_promises : forall st k e m nd, nth_error (emits st) k = Some e -> epc e = ELock ->
+  nth_error (emitters st) (eem e) = Some m -> nth_error (nodes st) (mnode m) = Some nd -> holder nd = None ->
+  exists st', step st (TEmit k) = Some (None, st') /\
+    forall s c, nth_error (subs st) s = Some c ->
+      exists c', nth_error (subs st') s = Some c' /\
+                 expd c' = expd c ++ repeat (mnode m, eev e) (cnt (sinks nd) s) /\ hist c' = hist c.
+Proof. exact emit_lock_promises. Qed.
+Print Assumptions c15_emit_lock_promises.
+
+(* no panic: no send ever targets a closed channel *)
+Theorem c15_never_send_on_closed : forall st sched, initial st -> panicked (run step st sched) = false.
+Proof. exact never_send_on_closed_l. Qed.
+Print Assumptions c15_never_send_on_closed.
+
+(* every sink an Emit is about to send to (typed or wildcard) is an open channel *)
+Theorem c15_send_targets_open : forall st sched k e n s r, initial st ->
+  nth_error (emits (run step st sched)) k = Some e -> (epc e = ESend n (s :: r) \/ epc e = EWSend n (s :: r)) ->
+  exists c, nth_error (subs (run step st sched)) s = Some c /\ closed c = false.
+Proof. exact targets_open_l. Qed.
+Print Assumptions c15_send_targets_open.
+
+(* nothing is delivered to a closed subscription: once the channel is closed
+   no node lists the sink any more *)
+Theorem c15_closed_is_unlisted : forall st sched s c n nd, initial st ->
+  nth_error (subs (run step st sched)) s = Some c -> closed c = true ->
+  nth_error (nodes (run step st sched)) n = Some nd -> ~ In s (sinks nd).
+Proof. exact closed_unlisted_l. Qed.
+Print Assumptions c15_closed_is_unlisted.
+
+(* emit blocks, never drops: a send to a full open channel is not enabled ... *)
+Theorem c15_emit_blocks_when_full : forall st s it c, nth_error (subs st) s = Some c -> closed c = false ->
+  room c = false -> send st s it = None.
+Proof. exact send_blocks_when_full. Qed.
+Print Assumptions c15_emit_blocks_when_full.
+
+(* ... and no step discards: everything ever sent into a channel is still
+   buffered or was taken from its head by a receiver, in FIFO order; until
+   Close starts the only receiver is the consumer *)
+Theorem c15_emit_blocks_not_drops : forall st sched s c, initial st ->
+  nth_error (subs (run step st sched)) s = Some c ->
+  exists taken, hist c = taken ++ buf c /\ (drain c = 0 -> taken = recv c).
+Proof. exact chan_integrity_l. Qed.
+Print Assumptions c15_emit_blocks_not_drops.
+
+(* node lock discipline (what the in-order argument rests on): a thread inside
+   a node's critical region is the recorded holder; at most one is inside *)
+Theorem c15_node_lock_mutual_exclusion : forall st sched n t1 t2, initial st ->
+  in_region (run step st sched) n t1 -> in_region (run step st sched) n t2 -> t1 = t2.
+Proof. exact mutual_exclusion_l. Qed.
+Print Assumptions c15_node_lock_mutual_exclusion.
